@@ -4,7 +4,7 @@ pub fn util_assume(p: bool)
 {
 }
 
-pub fn vx_assert(p: bool)
+pub const fn vx_assert(p: bool)
     requires p,
 {
 }
